@@ -71,14 +71,23 @@ _UNWIND = [('do_space', 0, 9), ('do_space', 1, 9), ('do_space', 2, _TS['IGNORE_s
 PROOFS = [
     # quick + thorough: the contract as a direct verification condition (see the PLAIN_VC block of space.spec.c)
     Proof('do_space', impl='contracts/C19/space.impl.cpp', spec='contracts/C19/space.spec.c', harness='h_do_space_vc', plain=True, no_contract=True,
-          rules=_DS_RULES, defines=['PLAIN_VC'], canaries=3, timeout=1500, object_bits=12, cbmc_flags=_SAFETY, unwind_loops=_UNWIND, slice_formula=True, nondet_static='.*(optv_|g_pool|g_null_chunk|cpd|QT_SIGNAL_SLOT|restoreValues|g_rule_|g_fwd_fuel).*',
+          rules=_DS_RULES, defines=['PLAIN_VC'], canaries=4, timeout=1500, object_bits=12, cbmc_flags=_SAFETY, unwind_loops=_UNWIND, slice_formula=True, nondet_static='.*(optv_|g_pool|g_null_chunk|cpd|QT_SIGNAL_SLOT|restoreValues|g_rule_|g_fwd_fuel).*',
           functions=['space.cpp:do_space'], expect=['postcondition: do_space'],
           note='direct VC (assume requires / call / assert ensures), no goto-instrument pass; the three table scans are unwound completely (bounds = table sizes read from add_space_table.h, '
                'unwinding assertions on) and the two chunk walks are bounded by the navigation fuel of the environment; the assigns clause is NOT checked in this '
                'proof (it is in do_space_dfcc, thorough tier). unsigned<->int conversions are implementation-defined, not undefined: conversion check off',
-          mutants=[('returns_neighbour_option', r'log_rule_id\(RULE_sp_catch_brace\);(\s*)return\(options::sp_catch_brace\(\)\);', r'log_rule_id(RULE_sp_catch_brace);\1return(options::sp_sparen_brace());', 'postcondition'),
+          mutants=[('else_vbrace_spaced_like_sparen', r'&& first->GetPrev\(\)->Is\(CT_SPAREN_CLOSE\)\n      && second->IsNot\(CT_SEMICOLON\)\)', '&& (first->GetPrev()->Is(CT_SPAREN_CLOSE) || first->GetPrev()->Is(CT_ELSE))\n      && second->IsNot(CT_SEMICOLON))', 'postcondition: do_space C02'),
+                   ('returns_neighbour_option', r'log_rule_id\(RULE_sp_catch_brace\);(\s*)return\(options::sp_catch_brace\(\)\);', r'log_rule_id(RULE_sp_catch_brace);\1return(options::sp_sparen_brace());', 'postcondition'),
                    ('arith_returns_assign', r'log_rule_id\(RULE_sp_arith\);(\s*)return\(options::sp_arith\(\)\);', r'log_rule_id(RULE_sp_arith);\1return(options::sp_assign());', 'postcondition'),
                    ('remove_bit_dropped', r'log_rule_id\(RULE_sp_before_semi\);(\s*)return\(options::sp_before_semi\(\)\);', r'log_rule_id(RULE_sp_before_semi);\1return(options::sp_before_semi() & IARF_ADD);', 'postcondition')]),
+
+    # the C02 clause of do_space alone (used by the C02 check: the attribution clauses, with their known finding, belong to C19)
+    Proof('do_space_no_glue', impl='contracts/C19/space.impl.cpp', spec='contracts/C19/space.spec.c', harness='h_do_space_vc', plain=True, no_contract=True,
+          rules=_DS_RULES, defines=['PLAIN_VC', 'C02_CLAUSE_ONLY'], canaries=4, timeout=1500, object_bits=12, cbmc_flags=_SAFETY, unwind_loops=_UNWIND, slice_formula=True, nondet_static='.*(optv_|g_pool|g_null_chunk|cpd|QT_SIGNAL_SLOT|restoreValues|g_rule_|g_fwd_fuel).*',
+          functions=['space.cpp:do_space (C02 clause: no REMOVE between a brace-less else/do and the word after it)'], expect=['postcondition: do_space C02'],
+          note='same direct VC as do_space with only the C02 clause asserted',
+          mutants=[('else_vbrace_spaced_like_sparen', r'&& first->GetPrev\(\)->Is\(CT_SPAREN_CLOSE\)\n      && second->IsNot\(CT_SEMICOLON\)\)', '&& (first->GetPrev()->Is(CT_SPAREN_CLOSE) || first->GetPrev()->Is(CT_ELSE))\n      && second->IsNot(CT_SEMICOLON))', 'postcondition: do_space C02'),
+                   ('vbrace_force_rule_dropped', r'if \(  first->Is\(CT_VBRACE_OPEN\)\n      && second->IsNot\(CT_NL_CONT\)', 'if (  false\n      && second->IsNot(CT_NL_CONT)', 'postcondition: do_space C02')]),
 
     # thorough only: the same contract enforced through DFCC, frame (assigns clause) included, loops closed by loop contracts
     Proof('do_space_dfcc', impl='contracts/C19/space.impl.cpp', spec='contracts/C19/space.spec.c', enforce='w_do_space/do_space_contract', harness='h_do_space',
@@ -87,7 +96,12 @@ PROOFS = [
           note='DFCC-enforced form (function contract + assigns clause + 5 loop contracts); 12-15 min, hence thorough tier only; the general clauses of rules with a recorded '
                'known deviation are left to proof do_space'),
 ]
-PROOFS[1].thorough_only = True
+for _p in PROOFS:
+    if _p.name == 'do_space_dfcc':
+        _p.thorough_only = True
+# proofs of this module that belong to another property's check (C02 picks them by name)
+EXTRA_PROOFS = [_p for _p in PROOFS if _p.name == 'do_space_no_glue']
+PROOFS = [_p for _p in PROOFS if _p.name != 'do_space_no_glue']
 PROOFS[0].site = _site_desc
 PROOFS[1].site = _site_index
 
